@@ -314,7 +314,7 @@ func relevance(focus string, t castTarget, s srcVal) float64 {
 			}
 		}
 	case "C10":
-		if otherKinds[s.kind] {
+		if otherKinds[s.kind] || s.kind == "time.Time" {
 			return 1
 		}
 		return 0.06
